@@ -1,6 +1,7 @@
 """Runs the MulgridADT pipeline and reports the clauses of C10 or C11."""
 import glob
 import json
+import numpy as np
 import os
 import random
 
@@ -50,7 +51,7 @@ def _run(pid, tier):
         raise tlc.MachineryError("MulgridADT violates " + str(r.violated))
     # ---- C2S (a): exhaustive short operation sequences on small lattice meshes
     traces, meta = [], []
-    meshes = ["2x2", "3x2", "mixed"] if quick else ["2x2", "3x2", "3x3", "mixed"]
+    meshes = ["2x2", "3x2", "mixed", "trap"] if quick else ["2x2", "3x2", "3x3", "mixed", "trap"]
     for kind in meshes:
         import copy
         try:
@@ -147,6 +148,19 @@ def _run(pid, tier):
                 t = mgmodel.record(ad, [{"op": "decompose_columns", "args": [[]]}])
                 traces.append(t)
                 meta.append(("poly%d" % (4 + k), t))
+                if rot == 0:
+                    # the same with the top of the model above zero and the many-sided column's surface exactly at 0.0
+                    geo = mgmodel.poly_mesh(mm, 0, sides, rot)
+                    with core.quiet():
+                        geo.translate(np.array([0.0, 0.0, 20.0]))
+                        geo.columnlist[0].surface = 0.0
+                        geo.set_column_num_layers(geo.columnlist[0])
+                        geo.setup_block_name_index()
+                        geo.setup_block_connection_name_index()
+                    ad = mgmodel.Adapter(geo)
+                    t = mgmodel.record(ad, [{"op": "decompose_columns", "args": [[geo.columnlist[0].name]]}])
+                    traces.append(t)
+                    meta.append(("poly%d-surface0" % (4 + k), t))
     # ---- C2S (b): random sequences on larger lattice meshes
     for _ in range(3 if quick else 30):
         nx, ny = rng.randint(3, 7 if quick else 12), rng.randint(2, 6 if quick else 12)
@@ -154,7 +168,7 @@ def _run(pid, tier):
             geo = m.mulgrid().rectangular([10.0] * nx, [10.0] * ny, [10.0, 10.0, 20.0], atmos_type=0)
         ad = mgmodel.Adapter(geo)
         seq = []
-        tr = [{"act": {"op": "init", "args": []}, "state": ad.project(), "names_ok": ad.names_current()}]
+        tr = [{"act": {"op": "init", "args": []}, "state": ad.project(), "names_ok": ad.names_current(), "totals": mgmodel.totals(ad.geo)}]
         for _ in range(rng.randint(4, 8 if quick else 25)):
             if len(ad.geo.columnlist) > 300:
                 break
@@ -164,7 +178,7 @@ def _run(pid, tier):
             except Exception as e:
                 tr.append({"act": a, "state": ad.project(), "error": repr(e), "names_ok": True})
                 break
-            tr.append({"act": a, "state": ad.project(), "names_ok": ad.names_current()})
+            tr.append({"act": a, "state": ad.project(), "names_ok": ad.names_current(), "totals": mgmodel.totals(ad.geo)})
         traces.append(tr)
         meta.append(("rect%dx%d" % (nx, ny), tr))
     # ---- C2S (c): shipped geometries (off the lattice: topological clauses by TLC, geometric ones as leaves)
@@ -178,7 +192,7 @@ def _run(pid, tier):
         if geo.num_columns > (150 if quick else 400) or geo.convention != 0 or geo.atmosphere_type != 0:
             continue
         ad = mgmodel.Adapter(geo, lattice=False)
-        tr = [{"act": {"op": "init", "args": []}, "state": ad.project(), "names_ok": ad.names_current()}]
+        tr = [{"act": {"op": "init", "args": []}, "state": ad.project(), "names_ok": ad.names_current(), "totals": mgmodel.totals(ad.geo)}]
         for _ in range(3 if quick else 10):
             ops = [o for o in mgmodel.op_alphabet(ad.geo, rng, rich=True) if o["op"] not in ("set_surface", "translate", "snap_columns_to_layers")]
             a = dict(rng.choice(ops))
@@ -188,7 +202,7 @@ def _run(pid, tier):
             except Exception as e:
                 tr.append({"act": a, "state": ad.project(), "error": repr(e), "names_ok": True})
                 break
-            tr.append({"act": a, "state": ad.project(), "names_ok": ad.names_current()})
+            tr.append({"act": a, "state": ad.project(), "names_ok": ad.names_current(), "totals": mgmodel.totals(ad.geo)})
             if ad.geo.num_columns > 400:
                 break
         traces.append(tr)
@@ -230,6 +244,22 @@ def _run(pid, tier):
             if not e.get("names_ok", True) and "P6_names_recomputation" in mine:
                 rep.violation(e["act"]["op"], "P6_names_recomputation", {"mesh": kind, "actions": [x["act"] for x in t[:l + 1]]})
                 break
+        # conservation as a floating-point leaf (decides states off the lattice, e.g. layers refined by 3, shipped geometries)
+        for l in range(1, len(t)):
+            if l > first_bad or "totals" not in t[l] or "totals" not in t[l - 1] or "error" in t[l]:
+                break
+            if t[l]["act"]["op"] not in ("refine", "decompose_columns", "split_column", "refine_layers"):
+                continue
+            a0, a1 = t[l - 1]["totals"], t[l]["totals"]
+            bad = []
+            if "C11_AreaConserved" in mine and (abs(a1["area"] - a0["area"]) > 1e-9 * a0["area"] or abs(a1["cached_area"] - a0["cached_area"]) > 1e-9 * a0["area"]
+                                                or a1["worst_cached_area_error"] > 1e-9):
+                bad.append("C11_AreaConserved")
+            if "C11_VolumeConserved" in mine and (abs(a1["volume"] - a0["volume"]) > 1e-9 * abs(a0["volume"]) or abs(a1["cached_volume"] - a0["cached_volume"]) > 1e-9 * abs(a0["volume"])):
+                bad.append("C11_VolumeConserved")
+            if bad:
+                rep.violation(t[l]["act"]["op"] + ":totals", ",".join(bad), {"mesh": kind, "actions": [x["act"] for x in t[:l + 1]], "before": a0, "after": a1})
+                break
         if "error" in t[-1] and "raised" in mine and tid not in failing_tids:
             rep.violation(t[-1]["act"]["op"] + ":raises", "raised",
                           {"mesh": kind, "actions": [x["act"] for x in t], "error": t[-1]["error"]})
@@ -244,6 +274,7 @@ def _run(pid, tier):
                 "and a mixed triangle/quad/pentagon lattice mesh, followed by a second (thorough: and third) operation; random "
                 "sequences on rectangular meshes up to 300 columns; shipped geometries; distinct = (mesh, operation sequence)")
     rep.leaves = ["block / connection name lists compared with a recomputation on a deep copy",
+                  "total plan area and rock volume before / after refine, decompose, split and refine_layers in floating point (1e-9), from node coordinates and from the cached column areas",
                   "off-lattice states (shipped geometries, third-level refinements): orientation, area, tiling and conformity not evaluated"]
     rep.assumptions = ["convention 0, atmosphere type 0 in recorded traces", "operations applied with arguments their docstrings allow"]
     rep.exhaustive = False
